@@ -64,6 +64,33 @@ def clean_scenario(rng, small):
         return sc
 
 
+def big_scenario(rng, n=70):
+    """A source tree with many entries, nested folders and symlinks in the middle of the listing; empty destination."""
+    sc = sync_e2e.Scenario()
+    sc.cfg = {'newer': 'A', 'older': 'A', 'same': 'S', 'entry': 'A', 'root': 'A'}
+    sc.outside = {'': {'k': 'dir'}}
+    t = {'': {'k': 'dir'}}
+    dirs = ['']
+    i = 0
+    while len(t) < n:
+        i += 1
+        par = rng.choice(dirs)
+        if par.count('/') >= 3:
+            continue
+        p = (par + '/' if par else '') + 'e%d' % i
+        r = rng.random()
+        if r < 0.3:
+            t[p] = {'k': 'dir'}
+            dirs.append(p)
+        elif r < 0.4:
+            t[p] = {'k': 'link', 'text': rng.choice([b'a', b'../x', b'.'])}
+        else:
+            t[p] = {'k': 'file', 'data': b'd%d' % i, 'mtime_ns': sync_e2e.T0 + i}
+    sc.src = t
+    sc.dest = {} if rng.random() < 0.5 else {'': {'k': 'dir'}, 'old': {'k': 'dir'}, 'old/x': {'k': 'file', 'data': b'x', 'mtime_ns': sync_e2e.T0}}
+    return sc
+
+
 def check(run):
     run.trusted = list(vlib.COMMON_TRUSTED) + [
         'crossbeam channel FIFO + select (the scripted doers keep one listing message in flight to force an interleaving)',
@@ -100,6 +127,17 @@ def check(run):
             rng.shuffle(s)
             reqs.append((sc, ls, ld, ''.join(s), 'big%d' % g))
         run.count('sampled-groups')
+    for g in range(6 if quick else 60):               # large listings (sorting / batching bugs only show beyond a few dozen entries)
+        sc = big_scenario(rng, rng.choice([45, 70, 120]))
+        ls0 = scripted.model_listing(jbin, sc.src)
+        ld0 = scripted.model_listing(jbin, sc.dest) if sc.dest.get('', {}).get('k') == 'dir' else []
+        for _ in range(2):
+            ls = scripted.random_parents_first(rng, ls0)
+            ld = scripted.random_parents_first(rng, ld0)
+            s = ['S'] * len(ls) + ['D'] * len(ld)
+            rng.shuffle(s)
+            reqs.append((sc, ls, ld, ''.join(s), 'large%d' % g))
+        run.count('large-groups')
     hl = [scripted.harness_line(sc, ls, ld, sched) for sc, ls, ld, sched, _ in reqs]
     ml = [scripted.model_line(sc, ls, ld, sched) for sc, ls, ld, sched, _ in reqs]
     impl = scripted.run_batch(binary, hl, timeout=900)
